@@ -207,6 +207,7 @@ type Exec struct {
 	applied     map[string]int  // contracts applied at call sites -> count
 	visits      int             // executed blocks (guards against runaway unrolling)
 	prog        *Program
+	autoGlobals map[string]bool // package-level pointer variables named in contracts by their engine symbol
 	watches     [][2]string // (source text, SMT term over the entry state) evaluated in counterexamples
 }
 
@@ -778,6 +779,12 @@ func (e *Exec) block(b *ssa.BasicBlock, pred *ssa.BasicBlock, st *State) {
 			panic(fmt.Sprintf("loop at block %d has no spec", b.Index))
 		}
 		back := pred != nil && b.Dominates(pred)
+		if e.contract != nil {
+			if reason, isAbs := e.contract.AbstractLoops[e.loopOrdinal(b)]; isAbs && !back {
+				e.abstractLoop(st, b, incoming, reason)
+				return
+			}
+		}
 		env := &Env{e: e, st: st, header: b, phi: map[string]string{}}
 		for phi, t := range incoming {
 			env.phi[phi.Comment] = t
@@ -835,6 +842,57 @@ func (e *Exec) block(b *ssa.BasicBlock, pred *ssa.BasicBlock, st *State) {
 	e.runFrom(st, b, 0)
 }
 
+// abstractLoop: the loop is not executed. Everything it may change is havoced, its clauses are ASSUMED, and execution
+// continues at the loop's exit block. Used for loops outside the subset (range over a string); recorded as an assumption.
+func (e *Exec) abstractLoop(st *State, b *ssa.BasicBlock, incoming map[*ssa.Phi]string, reason string) {
+	ord := e.loopOrdinal(b)
+	e.applied[fmt.Sprintf("abstract loop %d of %s (%s)", ord, shortName(e.contract.Name), reason)]++
+	env := &Env{e: e, st: st, header: b, phi: map[string]string{}}
+	for phi := range incoming {
+		h := e.fresh("phi_"+sanitize(phi.Comment), e.sorts.SortOf(phi.Type()))
+		st.vals[phi] = h
+		env.phi[phi.Comment] = h
+		if phi.Comment != "" && token.IsIdentifier(phi.Comment) {
+			st.dbg[phi.Comment] = DbgBinding{phi, false}
+		}
+	}
+	for _, hn := range e.modifiedHeaps(b) {
+		st.heap[hn] = e.fresh(hn, e.sorts.heaps[hn])
+	}
+	nn := e.fresh("nextRef", "Int")
+	st.assume = append(st.assume, fmt.Sprintf("(>= %s %s)", nn, st.nextRef))
+	st.nextRef = nn
+	st.assume = append(st.assume, e.autoInv(env, b)...)
+	c := e.newCtx(st)
+	c.header = b
+	c.phi = env.phi
+	c.snapKey = fmt.Sprint(b.Index)
+	for i, cl := range e.contract.Loops[ord] {
+		if t, ok := e.safeCompile(c, cl, fmt.Sprintf("abstract loop %d clause %d", ord, i+1)); ok {
+			st.assume = append(st.assume, t)
+		}
+	}
+	// exit: the unique successor of a loop block that lies outside the loop
+	var exit, from *ssa.BasicBlock
+	for _, blk := range e.fn.Blocks {
+		if !e.inLoop[b.Index][blk.Index] {
+			continue
+		}
+		for _, s := range blk.Succs {
+			if !e.inLoop[b.Index][s.Index] {
+				if exit != nil && exit != s {
+					panic("abstract loop with several exits: out of subset")
+				}
+				exit, from = s, blk
+			}
+		}
+	}
+	if exit == nil {
+		panic("abstract loop without exit")
+	}
+	e.block(exit, from, st)
+}
+
 func (e *Exec) runFrom(st *State, b *ssa.BasicBlock, from int) {
 	for i := from; i < len(b.Instrs); i++ {
 		ins := b.Instrs[i]
@@ -889,6 +947,7 @@ func (e *Exec) autoInv(env *Env, b *ssa.BasicBlock) []string {
 		}
 		out = append(out, fmt.Sprintf("(forall ((r Int)) (=> (and (<= 0 r) (< r nextRef0)) (= (select %s r) (select %s_0 r))))", e.heapSym(env.st, hn), hn))
 	}
+	// type invariant of the heaps the loop writes: every slice or pointer stored in an allocated cell refers to allocated memory
 	var names []string
 	for n := range env.phi {
 		names = append(names, n)
@@ -909,6 +968,56 @@ func (e *Exec) autoInv(env *Env, b *ssa.BasicBlock) []string {
 	for i := range slices {
 		for j := i + 1; j < len(slices); j++ {
 			out = append(out, fmt.Sprintf("(not (= (base %s) (base %s)))", slices[i], slices[j]))
+		}
+	}
+	return out
+}
+
+// heapTypeInv: well-formedness of the slices and pointers stored in a heap, relative to the current allocation counter.
+func (e *Exec) heapTypeInv(st *State, hn string) []string {
+	var cell, binder, sortName string
+	cur := e.heapSym(st, hn)
+	switch {
+	case strings.HasPrefix(hn, "HS_"):
+		sortName = strings.TrimPrefix(hn, "HS_")
+		cell, binder = fmt.Sprintf("(select (select %s r) k)", cur), "((r Int) (k Int))"
+	case strings.HasPrefix(hn, "H_"):
+		sortName = strings.TrimPrefix(hn, "H_")
+		cell, binder = fmt.Sprintf("(select %s r)", cur), "((r Int))"
+	default:
+		return nil
+	}
+	var wfs []string
+	if sortName == "Slice" {
+		wfs = []string{e.sliceWfCur(cell, st.nextRef)}
+	} else if t, ok := e.sorts.typeOf[sortName]; ok {
+		wfs = e.wellFormedCur(cell, t, st.nextRef)
+	}
+	var out []string
+	for _, w := range wfs {
+		out = append(out, fmt.Sprintf("(forall %s (=> (and (<= 0 r) (< r %s)) %s))", binder, st.nextRef, w))
+	}
+	return out
+}
+
+func (e *Exec) sliceWfCur(t, nr string) string {
+	return fmt.Sprintf("(and (<= 0 (base %s)) (< (base %s) %s) (<= 0 (off %s)) (<= 0 (len %s)) (<= (len %s) (cap %s)) (=> (= (base %s) 0) (= (cap %s) 0)))", t, t, nr, t, t, t, t, t, t)
+}
+
+func (e *Exec) wellFormedCur(term string, t types.Type, nr string) []string {
+	var out []string
+	switch u := t.Underlying().(type) {
+	case *types.Slice:
+		out = append(out, e.sliceWfCur(term, nr))
+	case *types.Pointer:
+		out = append(out, fmt.Sprintf("(and (<= 0 %s) (< %s %s))", term, term, nr))
+	case *types.Struct:
+		if n, ok := t.(*types.Named); ok && e.sorts.opaque(n, u) {
+			return nil
+		}
+		srt := e.sorts.SortOf(t)
+		for i := 0; i < u.NumFields(); i++ {
+			out = append(out, e.wellFormedCur(fmt.Sprintf("(%s %s)", e.sorts.Sel(srt, u, i), term), u.Field(i).Type(), nr)...)
 		}
 	}
 	return out
@@ -1357,6 +1466,10 @@ func (e *Exec) instr(st *State, b *ssa.BasicBlock, ins ssa.Instruction) (stop bo
 		if _, isPtr := x.X.Type().Underlying().(*types.Pointer); isPtr {
 			st.assume = append(st.assume, fmt.Sprintf("(= (unboxRef %s) %s)", bx, e.val(st, x.X)))
 		}
+		if e.sorts.SortOf(x.X.Type()) == "String" { // a boxed string can be read back through strOf
+			e.declOnce("(declare-fun strOf (Any) String)")
+			st.assume = append(st.assume, fmt.Sprintf("(= (strOf %s) %s)", bx, e.val(st, x.X)))
+		}
 		st.vals[x] = bx
 	case *ssa.TypeAssert:
 		if bi, ok := st.boxed[e.val(st, x.X)]; ok {
@@ -1411,6 +1524,9 @@ func (e *Exec) instr(st *State, b *ssa.BasicBlock, ins ssa.Instruction) (stop bo
 			st.vals[x] = v
 		}
 	case *ssa.Defer, *ssa.RunDefers:
+		return false
+	case *ssa.Range: // the iterator of a range loop; only abstract loops may follow (Next is outside the subset)
+		st.vals[x] = "rangeiter"
 		return false
 	case *ssa.Panic:
 		e.oblige(st, "nopanic", "false")
@@ -1914,7 +2030,27 @@ func (e *Exec) contractLoop(b *ssa.BasicBlock) *LoopSpec {
 		Snap: func(v *Env) map[string]string {
 			out := map[string]string{}
 			c := mk(v)
-			for _, cl := range cls {
+			all := append([]Clause{}, cls...)
+			// entry(<this loop>, e) used in postconditions, ghost results and call-site assertions
+			var outer []Clause
+			outer = append(outer, e.contract.Ensures...)
+			for _, g := range e.contract.GhostRets {
+				outer = append(outer, g.Cl)
+			}
+			for _, acs := range e.contract.AtCall {
+				outer = append(outer, acs...)
+			}
+			for _, lcls := range e.contract.Loops {
+				outer = append(outer, lcls...)
+			}
+			for _, cl := range outer {
+				var es []Expr
+				collectEntriesOrd(cl.E, ord, &es)
+				for _, ex := range es {
+					all = append(all, Clause{E: Call{"entry", []Expr{ex}}})
+				}
+			}
+			for _, cl := range all {
 				var es []Expr
 				collectEntries(cl.E, &es)
 				for _, ex := range es {
@@ -1983,7 +2119,10 @@ func (e *Exec) contractPre(st *State) {
 			e.watches = append(e.watches, [2]string{cl.Src, t})
 		}
 	}
-	for i, cl := range append(append([]Clause{}, e.contract.Requires...), e.contract.Given...) {
+	if len(e.contract.Assume) > 0 {
+		e.applied["assume clause of "+e.contract.Name]++
+	}
+	for i, cl := range append(append(append([]Clause{}, e.contract.Requires...), e.contract.Given...), e.contract.Assume...) {
 		if t, ok := e.safeCompile(c, cl, fmt.Sprintf("requires %d", i+1)); ok {
 			st.assume = append(st.assume, t)
 		}
